@@ -57,10 +57,12 @@ var plans = map[string]Plan{
 		Pkg: "c04",
 		Runs: []Run{
 			{Test: "^TestProps$/^sim_history$", Checks: checks(1500, 60000), Shards: shards(4, 16)},
+			{Test: "^TestProps$/^hdl_history$", Checks: checks(250, 8000), Shards: shards(4, 16)},
 		},
 		Assumptions: []string{
 			"per-opcode delay maps are single-valued (a multi-valued distribution samples the global math/rand/v2 source)",
-			"a breach preceded by a recorded finding's precondition monitor (D4: i2rw while own recv high; D5: r2owa starting while received high) is counted as excluded; a breach without one is a violation",
+			"a breach preceded by a recorded finding's precondition monitor (D4/D4h: i2rw while own recv high; D5: r2owa starting while received high; D12: r2owa starting while valid is still up) is counted as excluded; a breach without one is a violation",
+			"hardware world: files of Bondmachine.Write_verilog under /verif's 2-state interpreter, three cycles per simulator tick of budget; liveness (a stalled machine) is labelled, not judged",
 		},
 	},
 	"C08": {
